@@ -88,7 +88,9 @@ func (root *Root) ResolveExecutable(
 	if 0 < len(op.Variables) {
 		opVars = map[string]interface{}{}
 		for _, vd := range op.Variables {
-			opVars[vd.Name] = vd.Default
+			// A copy, input coercion fills in field defaults in place and the
+			// default belongs to the executable which can be resolved again.
+			opVars[vd.Name] = copyDefault(vd.Default)
 			if vars != nil {
 				if v := vars[vd.Name]; v != nil {
 					if ic, _ := vd.Type.(InCoercer); ic != nil { // validated in SDL validation
